@@ -103,6 +103,16 @@ def check_identity(sh, doc, db, suite, case):
                 got = e
             ck(isinstance(got, list) and len(got) == len(want) and all(x is y for x, y in zip(got, want)),
                'table.get_refs', f'{doc.tables[ti].full}.get_refs() = {got!r}, expected {want!r}')
+        # column.get_refs(): the references in which the column is one of the FIRST-side columns (composite ones included)
+        for ti, T in dbt.items():
+            for C in T.columns:
+                wantc = [R for R in db.refs if any(x is C for x in R.col1)]
+                try:
+                    gotc = C.get_refs()
+                except Exception as e:  # noqa
+                    gotc = e
+                ck(isinstance(gotc, list) and len(gotc) == len(wantc) and all(x is y for x, y in zip(gotc, wantc)),
+                   'column.get_refs', f'{doc.tables[ti].full}.{C.name}.get_refs() = {gotc!r}, expected {wantc!r}')
         # key holder: every non-<> reference is returned for exactly one table
         try:
             from pydbml.renderer.sql.default.table import get_references_for_sql
@@ -263,7 +273,7 @@ def conclusive(agg, tier):
     need = ['table.database', 'table.note.parent', 'lookup.fullname', 'lookup.index', 'lookup.alias', 'column.table',
             'column.note.parent', 'column.enum_type', 'index.table', 'index.note.parent', 'index.subject', 'enum.database',
             'enumitem.note.parent', 'ref.database', 'ref.col1', 'ref.col2', 'ref.col1.inline', 'ref.col2.inline',
-            'table.get_refs', 'group.database', 'group.items', 'group.note.parent', 'sticky.database', 'project.database',
+            'table.get_refs', 'column.get_refs', 'group.database', 'group.items', 'group.note.parent', 'sticky.database', 'project.database',
             'project.note.parent']
     return [f'assertion class {k} was never evaluated' for k in need if not c.get('obs.assert.' + k)]
 
